@@ -4,6 +4,7 @@ import (
 	"encoding/hex"
 	"fmt"
 	"math"
+	"sort"
 	"strconv"
 	"strings"
 	"sync"
@@ -141,6 +142,9 @@ func implC09(line string) (res string) {
 	}
 	al := strings.Join(names, ",")
 	var src string
+	if c09OwnOps[op] {
+		return implOwn(vm, op, rt, names)
+	}
 	if op == "fromCharCode" {
 		src = "String.fromCharCode(" + al + ")"
 	} else {
@@ -178,6 +182,160 @@ func implC09(line string) (res string) {
 		return "error:" + strings.ReplaceAll(err.Error(), " ", "_")
 	}
 	return resTok(vm, op, v)
+}
+
+// ---------------------------------------------------------------- own-property observers of String objects
+
+var c09OwnOps = map[string]bool{"hasown": true, "in": true, "desc": true, "isenum": true, "define": true, "keys": true, "ownnames": true, "forin": true}
+
+func runTok(vm *otto.Otto, src string) (otto.Value, string) {
+	v, err := vm.Run(src)
+	if err != nil {
+		if oe, ok := err.(*otto.Error); ok {
+			msg := oe.Error()
+			if i := strings.IndexByte(msg, ':'); i > 0 {
+				return v, "throw:" + msg[:i]
+			}
+		}
+		return v, "error:" + strings.ReplaceAll(err.Error(), " ", "_")
+	}
+	return v, ""
+}
+
+func nameList(v otto.Value) ([]string, bool) {
+	if !v.IsObject() || v.Object().Class() != "Array" {
+		return nil, false
+	}
+	o := v.Object()
+	lv, _ := o.Get("length")
+	n, _ := lv.ToInteger()
+	out := make([]string, 0, n)
+	for i := int64(0); i < n; i++ {
+		ev, _ := o.Get(strconv.FormatInt(i, 10))
+		if !ev.IsString() {
+			return nil, false
+		}
+		s, _ := ev.ToString()
+		out = append(out, s)
+	}
+	return out, true
+}
+
+func namesTok(ns []string) string {
+	ns = append([]string(nil), ns...)
+	sort.Strings(ns)
+	parts := make([]string, len(ns))
+	for i, n := range ns {
+		parts[i] = h.UnitsHex(n)
+	}
+	return fmt.Sprintf("a%d:%s", len(ns), strings.Join(parts, ","))
+}
+
+func implOwn(vm *otto.Otto, op, rt string, names []string) string {
+	how, recv := rt[:1], rt[1:]
+	if err := setRecv(vm, recv); err != nil {
+		return "harness-error:recv"
+	}
+	listOp := op == "keys" || op == "ownnames" || op == "forin"
+	exps := names
+	if !listOp {
+		if len(names) == 0 {
+			return "bad-op"
+		}
+		exps = names[1:]
+	}
+	pre := "var o = Object(r);"
+	for _, e := range exps {
+		pre += " o[" + e + "] = 1;"
+	}
+	if _, tok := runTok(vm, pre); tok != "" {
+		return tok
+	}
+	recvExpr := "o"
+	if len(exps) == 0 {
+		recvExpr = "r" // the receiver itself: a primitive is boxed by the callee
+	}
+	switch op {
+	case "hasown", "isenum":
+		m := map[string]string{"hasown": "hasOwnProperty", "isenum": "propertyIsEnumerable"}[op]
+		src := recvExpr + "." + m + "(a0)"
+		if how == "C" {
+			src = "Object.prototype." + m + ".call(" + recvExpr + ", a0)"
+		}
+		v, tok := runTok(vm, src)
+		if tok != "" {
+			return tok
+		}
+		return resTok(vm, op, v)
+	case "in":
+		v, tok := runTok(vm, "a0 in o")
+		if tok != "" {
+			return tok
+		}
+		return resTok(vm, op, v)
+	case "define":
+		v, tok := runTok(vm, `Object.defineProperty(o, a0, {value: "x"}); o[a0]`)
+		if tok != "" {
+			return tok
+		}
+		return resTok(vm, op, v)
+	case "desc":
+		v, tok := runTok(vm, "Object.getOwnPropertyDescriptor(o, a0)")
+		if tok != "" {
+			return tok
+		}
+		if v.IsUndefined() {
+			return "undef"
+		}
+		d := v.Object()
+		flag := func(k string) string {
+			fv, _ := d.Get(k)
+			b, _ := fv.ToBoolean()
+			if fv.IsBoolean() && b {
+				return "0001"
+			}
+			return "0000"
+		}
+		wec := flag("writable") + flag("enumerable") + flag("configurable")
+		val, _ := d.Get("value")
+		if val.IsNumber() {
+			n, _ := val.ToInteger()
+			return fmt.Sprintf("a3:%04x,%s,", n, wec)
+		}
+		us, ok := otto.VerifStringUnits(val)
+		if !ok {
+			return "desc-value-other"
+		}
+		return "a2:" + strings.TrimPrefix(unitsTok(us), "s:") + "," + wec
+	case "keys", "ownnames":
+		fn := map[string]string{"keys": "Object.keys", "ownnames": "Object.getOwnPropertyNames"}[op]
+		v, tok := runTok(vm, fn+"(o)")
+		if tok != "" {
+			return tok
+		}
+		ns, ok := nameList(v)
+		if !ok {
+			return "not-a-name-list"
+		}
+		return namesTok(ns)
+	case "forin":
+		v, tok := runTok(vm, "(function(){ var a = []; for (var k in o) a.push(k); return a })()")
+		if tok != "" {
+			return tok
+		}
+		ns, ok := nameList(v)
+		kv, tok2 := runTok(vm, "Object.keys(o)")
+		ks, ok2 := nameList(kv)
+		if !ok || !ok2 || tok2 != "" {
+			return "not-a-name-list"
+		}
+		t := namesTok(ns)
+		if strings.Join(ns, "\x00") != strings.Join(ks, "\x00") {
+			t += "!order-differs-from-Object.keys"
+		}
+		return t
+	}
+	return "bad-op"
 }
 
 // ---------------------------------------------------------------- generator
@@ -436,6 +594,66 @@ func genC09(c *h.Ctx) {
 			hx := hex.EncodeToString([]byte(string(cps[i:j])))
 			c.Add("toLowerCase Ms:"+hx, "toLowerCase:table")
 			c.Add("toUpperCase Ms:"+hx, "toUpperCase:table")
+		}
+	}
+	// (3c) own-property observers of String objects and primitive strings
+	{
+		expSets := [][]string{{}, {"foo"}, {"5"}, {"0"}, {"length"}, {"01"}, {"foo", "5", "foo"}, {"7", "bar", "01", "2"}, {"-0", "+1"}}
+		expToks := func(es []string) string {
+			var b strings.Builder
+			for _, e := range es {
+				b.WriteString(" " + h.BytesTok(e))
+			}
+			return b.String()
+		}
+		strs := append([]string{}, c09Fixed...)
+		for i := 0; i < c.N(40, 4000); i++ {
+			strs = append(strs, randString(r, 6))
+		}
+		for si, s := range strs {
+			hx := hex.EncodeToString([]byte(s))
+			n := unitLen(s)
+			keys := []string{"0", "1", "2", "3", strconv.Itoa(n - 1), strconv.Itoa(n), strconv.Itoa(n + 1), "01", "+1", "-0", "00", "1.0", "1e0", "length", "foo", "", "5", "7",
+				"4294967294", "4294967295", "4294967296", "-1", "bar"}
+			var ktoks []string
+			for _, k := range keys {
+				ktoks = append(ktoks, h.BytesTok(k))
+			}
+			ktoks = append(ktoks, fTok(0), fTok(1), fTok(float64(n)), fTok(math.Copysign(0, -1)), fTok(0.5), "i64:1", "u", "n")
+			for ei, es := range expSets {
+				if si >= len(c09Fixed) && !c.Thorough() && ei != si%len(expSets) {
+					continue
+				}
+				et := expToks(es)
+				for _, op := range []string{"keys", "ownnames", "forin"} {
+					c.Add(op+" MS:"+hx+et, op)
+				}
+				for _, k := range ktoks {
+					for _, op := range []string{"hasown", "in", "desc", "isenum"} {
+						c.Add(op+" MS:"+hx+" "+k+et, op)
+					}
+					if len(es) <= 1 {
+						c.Add("define MS:"+hx+" "+k+et, "define")
+					}
+				}
+			}
+			// primitive receivers (boxed by the callee or by Object()) and []uint16 strings
+			for _, k := range ktoks {
+				for _, rt := range []string{"Ms:" + hx, "Cs:" + hx, "CS:" + hx} {
+					c.Add("hasown "+rt+" "+k, "hasown:prim")
+					c.Add("isenum "+rt+" "+k, "isenum:prim")
+				}
+				c.Add("in Ms:"+hx+" "+k, "in:prim")
+				c.Add("desc Ms:"+hx+" "+k, "desc:prim")
+			}
+			c.Add("keys Ms:"+hx, "keys:prim")
+			c.Add("ownnames Ms:"+hx, "ownnames:prim")
+			c.Add("forin Ms:"+hx, "forin:prim")
+			if si%3 == 0 {
+				w := randUnits(r, 5)
+				c.Add("ownnames Mw:"+w, "ownnames:w")
+				c.Add("hasown Cw:"+w+" "+h.BytesTok("1"), "hasown:w")
+			}
 		}
 	}
 	// (4) fromCharCode
